@@ -25,6 +25,7 @@ type verifJobResult struct {
 	Observes     map[string]string `json:"observes"`
 	Asserts      int               `json:"asserts"`
 	AssumeSite   string            `json:"assume_site"`
+	Timeout      bool              `json:"timeout"`
 }
 
 var (
